@@ -198,6 +198,8 @@ package multinode
 //@ // when that node accepted the submission or refused it only for a reason Vouch tolerates from that client ----
 //@ spec func nodeErr() error
 //@ spec func toleratedErr() error
+//@ // what acquiring the concurrency semaphore answered
+//@ spec func semErr() error
 //@
 //@ func (*Service).submitProposal
 //@   requires s != nil && sem != nil && w != nil && submissionCompleted != nil && !isnil(submitter) && proposal != nil
@@ -208,6 +210,10 @@ package multinode
 //@   ensures calls(Store) <= 1
 //@   // the waiting submission is woken by this goroutine exactly when it has set the flag: a refusal wakes nobody
 //@   ensures calls(Signal) == calls(Store)
+//@   // every configured node is offered the submission: once its goroutine holds the semaphore it submits, whatever
+//@   // the other nodes have answered meanwhile
+//@   assumes call Acquire#1 (aerr): aerr == semErr()
+//@   ensures calls(Acquire) == 1 && semErr() == nil ==> calls(SubmitProposal) == 1
 //@
 //@ func (*Service).submitAggregateAttestations
 //@   requires s != nil && sem != nil && w != nil && submissionCompleted != nil && !isnil(submitter) && len(aggregates) > 0 && aggregates[0] != nil && aggregates[0].Message != nil && aggregates[0].Message.Aggregate != nil && aggregates[0].Message.Aggregate.Data != nil
@@ -218,6 +224,10 @@ package multinode
 //@   ensures calls(Store) <= 1
 //@   // the waiting submission is woken by this goroutine exactly when it has set the flag: a refusal wakes nobody
 //@   ensures calls(Signal) == calls(Store)
+//@   // every configured node is offered the submission: once its goroutine holds the semaphore it submits, whatever
+//@   // the other nodes have answered meanwhile
+//@   assumes call Acquire#1 (aerr): aerr == semErr()
+//@   ensures calls(Acquire) == 1 && semErr() == nil ==> calls(SubmitAggregateAttestations) == 1
 //@
 //@ func (*Service).submitBeaconCommitteeSubscriptions
 //@   requires s != nil && sem != nil && w != nil && submissionCompleted != nil && !isnil(submitter) && true
@@ -228,6 +238,10 @@ package multinode
 //@   ensures calls(Store) <= 1
 //@   // the waiting submission is woken by this goroutine exactly when it has set the flag: a refusal wakes nobody
 //@   ensures calls(Signal) == calls(Store)
+//@   // every configured node is offered the submission: once its goroutine holds the semaphore it submits, whatever
+//@   // the other nodes have answered meanwhile
+//@   assumes call Acquire#1 (aerr): aerr == semErr()
+//@   ensures calls(Acquire) == 1 && semErr() == nil ==> calls(SubmitBeaconCommitteeSubscriptions) == 1
 //@
 //@ func (*Service).submitProposalPreparations
 //@   requires s != nil && sem != nil && w != nil && submissionCompleted != nil && !isnil(submitter) && true
@@ -238,6 +252,10 @@ package multinode
 //@   ensures calls(Store) <= 1
 //@   // the waiting submission is woken by this goroutine exactly when it has set the flag: a refusal wakes nobody
 //@   ensures calls(Signal) == calls(Store)
+//@   // every configured node is offered the submission: once its goroutine holds the semaphore it submits, whatever
+//@   // the other nodes have answered meanwhile
+//@   assumes call Acquire#1 (aerr): aerr == semErr()
+//@   ensures calls(Acquire) == 1 && semErr() == nil ==> calls(SubmitProposalPreparations) == 1
 //@
 //@ func (*Service).submitSyncCommitteeSubscriptions
 //@   requires s != nil && sem != nil && w != nil && submissionCompleted != nil && !isnil(submitter) && true
@@ -248,6 +266,10 @@ package multinode
 //@   ensures calls(Store) <= 1
 //@   // the waiting submission is woken by this goroutine exactly when it has set the flag: a refusal wakes nobody
 //@   ensures calls(Signal) == calls(Store)
+//@   // every configured node is offered the submission: once its goroutine holds the semaphore it submits, whatever
+//@   // the other nodes have answered meanwhile
+//@   assumes call Acquire#1 (aerr): aerr == semErr()
+//@   ensures calls(Acquire) == 1 && semErr() == nil ==> calls(SubmitSyncCommitteeSubscriptions) == 1
 //@
 //@ func (*Service).submitSyncCommitteeMessages
 //@   requires s != nil && sem != nil && w != nil && submissionCompleted != nil && !isnil(submitter) && len(messages) > 0 && messages[0] != nil
@@ -259,6 +281,10 @@ package multinode
 //@   ensures calls(Store) <= 1
 //@   // the waiting submission is woken by this goroutine exactly when it has set the flag: a refusal wakes nobody
 //@   ensures calls(Signal) == calls(Store)
+//@   // every configured node is offered the submission: once its goroutine holds the semaphore it submits, whatever
+//@   // the other nodes have answered meanwhile
+//@   assumes call Acquire#1 (aerr): aerr == semErr()
+//@   ensures calls(Acquire) == 1 && semErr() == nil ==> calls(SubmitSyncCommitteeMessages) == 1
 //@
 //@ func (*Service).submitSyncCommitteeContributions
 //@   requires s != nil && sem != nil && w != nil && submissionCompleted != nil && !isnil(submitter) && len(contributionAndProofs) > 0 && contributionAndProofs[0] != nil && contributionAndProofs[0].Message != nil && contributionAndProofs[0].Message.Contribution != nil
@@ -270,6 +296,10 @@ package multinode
 //@   ensures calls(Store) <= 1
 //@   // the waiting submission is woken by this goroutine exactly when it has set the flag: a refusal wakes nobody
 //@   ensures calls(Signal) == calls(Store)
+//@   // every configured node is offered the submission: once its goroutine holds the semaphore it submits, whatever
+//@   // the other nodes have answered meanwhile
+//@   assumes call Acquire#1 (aerr): aerr == semErr()
+//@   ensures calls(Acquire) == 1 && semErr() == nil ==> calls(SubmitSyncCommitteeContributions) == 1
 //@
 //@ // ---- C08: which refusals are tolerated ----
 //@ spec func nodeKind() string
